@@ -212,6 +212,16 @@ func (im *impl) do(op, arg string) (string, error) {
 		im.kept[id] = conn
 		im.kmu.Unlock()
 		return msg, nil
+	case "closekept":
+		id64, _ := strconv.ParseUint(arg, 10, 32)
+		im.kmu.Lock()
+		conn := im.kept[uint32(id64)]
+		delete(im.kept, uint32(id64))
+		im.kmu.Unlock()
+		if conn == nil {
+			return "", errors.New("closekept: no kept connection")
+		}
+		return "", conn.Close()
 	case "reping":
 		id64, _ := strconv.ParseUint(arg, 10, 32)
 		im.kmu.Lock()
